@@ -15,6 +15,9 @@ History.  The guard of fa0779c looked at jabber:client elements only: an `<iq xm
 query, or a stream-management `<r/>` after a redirect, was answered in clear; the main theorem then needed the hypothesis
 `noEarlyBypass` and `C04_defect_foreign_namespace_iq_answered_in_clear` proved it necessary.  Repaired by e3d3c0f (before
 encryption only stream features and stream errors are processed); the witness is kept below with what it produces now.
+`connectToHost()` on a socket that was still connected (reconnect timer after a TLS close_notify without TCP close, or a second
+`connectToServer`) reset the socket to plaintext and kept the session (`C04_defect_cleartext_after_reconnect_on_live_socket`);
+repaired by 6235115 (abort first).  Since then neither `appWaits` nor `appUsesSession` says anything about connects.
 Before the repository fixes e0bbad9 ("legacy authentication sends credentials in clear although TLS is required")
 and fa0779c ("stanzas received before STARTTLS are processed and answered in clear although TLS is required") the statement
 needed two more hypotheses (every header carries a version; no IQ request before encryption) and two defect theorems proved
@@ -27,9 +30,10 @@ namespace Qx.C04
 any sequence of authentication / bind / stream-management answers, jabber:client IQ requests, messages, presences, stanza-shaped
 elements in foreign / empty / jabber:server namespaces, `<r/>`, `<a/>`, whitespace keep-alives, partial elements, stream errors
 (with or without the closing tag in the same read), redirects, closes, connection losses — everything the client ever writes to
-an unencrypted wire is a stream open, `<starttls/>` or a stream close.  No hypothesis about the server.
-`appWaits` is the application-side scope of the property (it quantifies over servers): the application itself does not send
-requests over an unencrypted link and calls `connectToServer` only while disconnected. -/
+an unencrypted wire is a stream open, `<starttls/>` or a stream close.  The scripts include time (`tick`), TLS close_notify
+without TCP close, the reconnect timer, and `connectToServer` in ANY state.  No hypothesis about the server.
+`appWaits` is the application-side scope (the property quantifies over servers): the application itself does not send requests
+over an unencrypted link.  (Nothing is assumed about when it calls `connectToServer`.) -/
 theorem tls_required_no_secret_before_encrypted (cfg : Cfg) (hreq : cfg.tls = .required) (script : List Ev)
     (happ : Along appWaits (init cfg) script) :
     ∀ o ∈ (run (init cfg) script).2, o.clearOk :=
@@ -45,6 +49,25 @@ theorem no_secret_in_clear (cfg : Cfg) (hreq : cfg.tls = .required) (script : Li
   have h := tls_required_no_secret_before_encrypted cfg hreq script happ _ hk
   cases k <;> simp_all [Out.clearOk, Kind.preTlsOk, Kind.carriesSecret]
 
+/-- **A second consumer of stream features.**  With `registerOnConnect` a `QXmppRegistrationManager` takes every stream features
+element before the client's own handler sees it.  TLS required: in every history neither the request for the registration form nor
+the filled-in form (user name, password) is written to an unencrypted link — the manager calls the client's `handleStarttls`
+first, which starts TLS or gives up. -/
+theorem registration_never_in_clear (cfg : Cfg) (hreq : cfg.tls = .required) (script : List Ev)
+    (happ : Along appWaits (init cfg) script) (form : Bool) :
+    Out.sent (.register form) .clear ∉ (run (init cfg) script).2 := by
+  intro h
+  have := tls_required_no_secret_before_encrypted cfg hreq script happ _ h
+  simp [Out.clearOk, Kind.preTlsOk] at this
+
+/-- non-vacuity: over TLS the cached form is sent (once), then the form is requested -/
+example : (run (init { tls := .required, registerOnConnect := true, regForm := true })
+    ([.connectToServer, .socketConnected, .recv (.header true true), .recv (.features { tls := .optional, register := true }),
+      .recv (.proceed true), .recv (.header true true), .recv (.features { register := true }),
+      .recv (.features { register := true })])).2 =
+    [.sent .streamOpen .clear, .sent .startTls .clear, .sent .streamOpen .enc, .sent (.register true) .enc,
+     .sent (.register false) .enc] := by decide
+
 /-- **Time.**  `tick` = the keep-alive interval elapses.  With TLS required, in every history (the server may stall at any point
 of the negotiation for any number of intervals), neither a keep-alive ping nor the `<r/>` that replaces it under stream
 management is ever written to an unencrypted link. -/
@@ -54,6 +77,32 @@ theorem no_keepalive_before_encryption (cfg : Cfg) (hreq : cfg.tls = .required) 
   constructor <;> intro h <;>
     have := tls_required_no_secret_before_encrypted cfg hreq script happ _ h <;>
     simp [Out.clearOk, Kind.preTlsOk] at this
+
+/-- witness: an encrypted session; the server sends a TLS close_notify but keeps the TCP connection (socket error
+RemoteHostClosedError, the client stays connected, automatic reconnection starts its timer); the timer fires: `connectToHost()` on
+the live socket; then the keep-alive interval elapses -/
+def witnessLiveReconnect : List Ev :=
+  [.connectToServer, .socketConnected] ++ Qx.C10.flowTlsSaslBind ++ [.tlsCloseNotify, .reconnectTick, .tick]
+
+/-- what the former witness of `C04:encryption-dropped-on-live-connection` does now (6235115: a connect starts from an unconnected
+socket): the timer's `connectToHost()` aborts the half-closed connection — the session ends with `disconnected` — and opens a new
+one; nothing is written in clear, the keep-alive timer is not running any more.  (Before, `QSslSocket::connectToHost()` reset the
+live socket to unencrypted mode: the session went on in clear, `C04_defect_cleartext_after_reconnect_on_live_socket`.) -/
+example : let r := run (init { tls := .required, plainOk := true, autoReconnect := true, keepAlive := true }) witnessLiveReconnect
+    r.1.conn = .connecting ∧ isConnected r.1 = false ∧ Out.sig .disconnected ∈ r.2 ∧ Out.sent .ping .clear ∉ r.2 := by decide
+
+/-- **A (re)connect never leaves an old session on the wire**: in ANY state `connectToHost()` (application or reconnect timer)
+ends with the socket not connected — an old connection is aborted, its session closed — and writes nothing at all. -/
+theorem connect_starts_from_an_unconnected_socket (s : St) :
+    (connectTo s).1.conn = .connecting ∧ (connectTo s).1.sessionStarted = (socketGone s).1.sessionStarted ∧
+    (∀ k l, Out.sent k l ∉ (connectTo s).2) ∧
+    (s.conn = .connected → s.redirect = false → (connectTo s).1.sessionStarted = false ∧ Out.sig .disconnected ∈ (connectTo s).2) := by
+  refine ⟨rfl, rfl, ?_, ?_⟩
+  · intro k l
+    simp only [connectTo, socketGone, onSocketDisconnected, closeSession]
+    (repeat' split) <;> simp [iqDones]
+  · intro hc hr
+    simp [connectTo, socketGone, hc, onSocketDisconnected, hr, closeSession]
 
 /-- **The ping timer only runs inside a session** (any TLS mode, any history, no hypothesis): when time passes, something is
 written only if keep-alive is configured and a session is open (the timer is started by `connected`, stopped by
@@ -136,7 +185,7 @@ theorem failed_handshake_disconnects (cfg : Cfg) (script : List Ev)
     .sig .disconnected ∈ (step (run (init cfg) script).1 (.recv (.proceed false))).2 := by
   have hred : (run (init cfg) script).1.redirect = false := run_red script (init cfg) rfl
   generalize (run (init cfg) script).1 = s at *
-  simp [step, recv, hc, hw, hh, dispatch, hl, starttlsHandle, onSocketDisconnected, hred, closeSession, iqDones]
+  simp [step, recv, hc, hw, hh, dispatch, hl, starttlsHandle, onSocketDisconnected, armReconnect, hred, closeSession, iqDones]
 
 /-- **The scope hypothesis is tight for `sendIq`/`sendPacket`: what the application sends is written to the socket as is.**
 In ANY state: if the socket is connected and not encrypted, a request of the application goes over the wire in clear (the
@@ -160,8 +209,8 @@ theorem app_send_leaks_exactly_on_a_clear_link (s : St) :
     exact (sendIq_nc s hnc).1
 
 /-- **An application that sends only while `isConnected()` is safe, for every server.**  TLS required; the application sends
-requests only while `isConnected()` is true and calls `connectToServer` only while disconnected (`appUsesSession`, the documented
-way to use the client).  Then for every script nothing but stream open / `<starttls/>` / stream close ever goes over an
+requests only while `isConnected()` is true (`appUsesSession`, the documented way to use the client; it may call
+`connectToServer` at any time).  Then for every script nothing but stream open / `<starttls/>` / stream close ever goes over an
 unencrypted wire, and whenever `isConnected()` is true the link is encrypted (a session is never established, nor kept, on an
 unencrypted link when TLS is required). -/
 theorem app_that_waits_for_session_is_safe (cfg : Cfg) (hreq : cfg.tls = .required) (script : List Ev)
@@ -191,14 +240,14 @@ disconnects; the field offer that follows is not even read. -/
 theorem versionless_header_gives_up (cfg : Cfg) (hreq : cfg.tls = .required) (hns : cfg.useNonSasl = true) :
     (run (init cfg) witnessVersionless).2 = [.sent .streamOpen .clear, .sent .streamClose .clear, .sig .disconnected] ∧
     (run (init cfg) witnessVersionless).1.conn = .disconnected := by
-  simp [witnessVersionless, run, step, init, recv, handleStart, handleStream, hreq, hns, disconnectFromHost, socketClose,
+  simp [witnessVersionless, run, step, connectTo, socketGone, init, recv, handleStart, handleStream, hreq, hns, disconnectFromHost, socketClose,
     onSocketDisconnected, closeSession, send, link, iqDones]
 
 /-- **An IQ request before encryption is refused, not answered**: error, stream close, disconnect. -/
 theorem iq_request_before_tls_is_rejected (cfg : Cfg) (hreq : cfg.tls = .required) :
     (run (init cfg) witnessIqRequest).2 =
       [.sent .streamOpen .clear, .sig .error, .sent .streamClose .clear, .sig .disconnected] := by
-  simp [witnessIqRequest, run, step, init, recv, handleStart, handleStream, hreq, dispatch, idleHandle, idleGuarded, El.isStreamLevel, St.preTls, reject,
+  simp [witnessIqRequest, run, step, connectTo, socketGone, init, recv, handleStart, handleStream, hreq, dispatch, idleHandle, idleGuarded, El.isStreamLevel, St.preTls, reject,
     disconnectFromHost, socketClose, onSocketDisconnected, closeSession, send, link, iqDones]
 
 /-- **If encryption cannot be negotiated the client gives up and disconnects.**  TLS required; after ANY script that leaves
